@@ -63,7 +63,9 @@ Load(b, T) ==
      IN Log([op |-> "load", base |-> b, n |-> last[b].n, T |-> T, residual |-> residual, ow |-> FALSE, id |-> last[b].id,
              outcome |-> out, items |-> [i \in 1..k |-> [id |-> files[b][i - 1][1], idx |-> files[b][i - 1][2]]]])
   /\ UNCHANGED <<files, mean, last, nsave>>
-Next == \/ \E b \in Bases, n \in 1..MaxN, T \in 1..MaxT, r \in BOOLEAN, ow \in BOOLEAN : Save(b, n, T, r, ow)
+\* MaxN = 12 is the long-list configuration: only the lengths around the step from one-digit to two-digit indices are enumerated
+NSet == IF MaxN = 12 THEN {2, 10, 11, 12} ELSE 1..MaxN
+Next == \/ \E b \in Bases, n \in NSet, T \in 1..MaxT, r \in BOOLEAN, ow \in BOOLEAN : Save(b, n, T, r, ow)
         \/ \E b \in Bases, T \in 1..MaxT : Load(b, T)
 Spec == Init /\ [][Next]_vars
 \* ---- properties (C26) -------------------------------------------------------------------------------------
@@ -80,5 +82,7 @@ NeverShorter == ~(\E b \in Bases : last[b].valid /\ \E i \in Idx : i > last[b].n
 NeverFails == \A b \in Bases : nsave > 0 => (last[b].valid \/ last[b] = NoSave)
 \* restriction used for a targeted exhaustive emission: one base name, every save overwrites
 OneBaseOverwrite == \A i \in 1..Len(hist) : hist[i].base = "s_1" /\ (hist[i].op = "save" => hist[i].ow)
+\* restriction for lists whose indices need two digits (file names <base>.9.pickle, <base>.10.pickle, ...)
+BigLists == OneBaseOverwrite /\ \A i \in 1..Len(hist) : hist[i].op = "save" => hist[i].n \in {2, 10, 11, 12}
 Emit == (EmitHist /\ nops = MaxOps) => PrintT(ToJson([hist |-> hist]))
 =============================================================================
